@@ -293,9 +293,9 @@ class AlignInt(AbsInt):
         for suf in self.aligned_ptr_fns:
             if fn.endswith(suf):
                 return ('u', ('alignedptr', fn, args[0] if args else None), None)
-        if fn.endswith('Qcow2Info::block_size') and self.f.body(fn) is None:
+        if fn.endswith('Qcow2Info::block_size') and self.callee_body(t, fn) is None:
             return shl1(BS)
-        if (fn.endswith('ops::Deref::deref') or fn.endswith('ops::DerefMut::deref_mut')) and self.f.body(fn) is None and t.get('a'):
+        if (fn.endswith('ops::Deref::deref') or fn.endswith('ops::DerefMut::deref_mut')) and self.callee_body(t, fn) is None and t.get('a'):
             ty0 = self.f.types[t['a'][0]]
             if ty0['k'] == 'adt' and ty0['p'].endswith('helpers::Qcow2IoBuf'):
                 # the library's 4096-aligned buffer seen from another crate
